@@ -116,6 +116,7 @@ class StreamConsumer:
     Drains a LUNA StreamInterface source: drives <p>ready, observes <p>valid/payload/first/last.
     phases: list of [n_cycles, mode]; mode 0 = not ready, 1 = ready, k >= 2 = ready every k-th cycle.  After the last
     phase (or from `release_at` on, whichever comes first... release is set by the run when the host is done) ready = 1.
+    `hold` (set / cleared by a host script between transactions) overrides everything: while it is set ready = 0.
     """
 
     def __init__(self, prefix, phases):
@@ -123,6 +124,7 @@ class StreamConsumer:
         self.phases = [list(x) for x in phases]
         self.taken = []               # (cycle, payload, first, last)
         self.release = False
+        self.hold = False
         self._ready = 0
         self._bounds = []
         acc = 0
@@ -140,6 +142,8 @@ class StreamConsumer:
             if self._pi < len(self._bounds):
                 mode = self._bounds[self._pi][1]
                 r = 0 if mode == 0 else (1 if mode == 1 else int(t % mode == 0))
+        if self.hold:
+            r = 0
         self._ready = r
         self.stall_cycles += 1 - r
         return {self.p + "ready": r}
